@@ -154,6 +154,10 @@ func (vs *ValidatorStore) ExecuteAllegationTracker(ctx *ValidatorContext, active
 
 		for i := range ar.Votes {
 			vote := ar.Votes[i]
+			// the bar is a share of the validators active now: only their votes count
+			if !ctx.EvidenceStore.IsActiveValidator(vote.Address) {
+				continue
+			}
 			switch vote.Choice {
 			case evidence.YES:
 				yesCount++
